@@ -1147,6 +1147,12 @@ class RpcServer:
         # the outer one handles streaming errors.  Only one access log fires per call.
         try:
             result: Stream[StreamState, Any] = getattr(self._impl, info.name)(**kwargs)
+            # Implementation faults are answered like any other init failure
+            # instead of escaping serve() and stranding the client.
+            if not isinstance(result, Stream):
+                raise TypeError(f"Method '{info.name}' must return a Stream, got {type(result).__name__}")
+            if info.header_type is not None and result.header is None:
+                raise TypeError(f"Method '{info.name}' declares header type but returned header=None")
         except Exception as exc:
             _hook_exc = exc
             status = "error"
